@@ -54,7 +54,9 @@ KNOWN = {
     "F18": ("multi-uspace", {"ast", "bc"}),                 # trailing Unicode space of a """ line stripped
     "F19": ("tail-block", {"ast", "bc"}),                   # trivia-kept block ending in a tail call
     "F30": ("blank-line", {"idem:layout"}),                 # a blank line forces a break but is not kept -> 2nd format re-joins
-    "F31": ("two-comments", {"comments:reordered"}),        # dangling comments are emitted at the end of the file
+    "F31": (("hole-comment", "comment-in-pattern", "comment-in-type"), {"comments:reordered"}),   # residual class only: a comment INSIDE an interpolation hole, a pattern or a type (rendered as one piece of text, no AST node to stay with) overtakes other comments
+    "F89": (("comment-in-empty-brackets", "comment-before-comma-closer"), {"comments:reordered"}),   # residue of the F31 repair: a comment followed only by commas (and comments) up to the closing bracket is not recognised as the last thing in the brackets
+    "F90": ("comment-in-select-sources", {"comments:reordered"}),   # the sources of a `! [ .. ]` are not nodes a comment can attach to: a comment among them moves out and can overtake another
     "F32": ("two-comments", {"comments:merged"}),           # two trailing comments of one node land on one line
     "F33": ("multi-pattern", {"ast"} | IK),                      # a """ string pattern is re-rendered as "..." (StringStyle changes)
     "F34": ("lower-tuple-type", {"reparse"}),               # `'e[...]` rendered as `e[...'e]`
